@@ -196,7 +196,7 @@ func (s *vfSched) parkedAt(actor string) string {
 	return ""
 }
 
-// releasedFrom reports whether some actor's latest event is its release from the named point: it is on its way from
+// releasedFrom reports whether some actor's latest event is its release from the named point ("" = any point): it is on its way from
 // there to its next point (running, or blocked on something the scheduler cannot see).
 func (s *vfSched) releasedFrom(point string) bool {
 	s.mu.Lock()
@@ -208,7 +208,7 @@ func (s *vfSched) releasedFrom(point string) bool {
 		}
 	}
 	for _, ev := range last {
-		if ev.Kind == "release" && ev.Point == point {
+		if ev.Kind == "release" && (point == "" || ev.Point == point) {
 			return true
 		}
 	}
